@@ -477,7 +477,18 @@ var catalogue = []struct {
 	{1, "E RESTART E RESTART OK OK"},
 	{2, "E E TRANS TRANS RESTART OK OK"},
 	{1, "E E E E E E E E E E E OK OK OK OK OK OK OK OK OK OK OK"},
+	// shutdown window: the retry sender is stopped before the queue, so a consumer whose parked hand-off is
+	// interrupted may dequeue (and get interrupted on) further requests before the queue itself stops
+	{1, "E E E TRANS RESTART OK OK OK"},
+	{2, "E E E E TRANS TRANS RESTART OK OK OK OK"},
+	{1, "E E TRANS RESTART E OK OK OK"},
+	{3, "E E E E E TRANS TRANS TRANS RESTART OK OK OK OK OK"},
+	{2, "E E E TRANS RESTART TRANS RESTART OK OK OK"},
 }
+
+// catalogueReps: every catalogue script is explored several times (the follow-up scripts differ, and the
+// shutdown-window interleavings are scheduler dependent).
+func catalogueReps(c *driver.Ctx) int64 { return int64(c.N(4, 12)) }
 
 type explorer struct {
 	c         *driver.Ctx
@@ -659,10 +670,11 @@ func run(c *driver.Ctx) {
 		x.register(sentinel)
 		var sc []step
 		g := i*int64(c.NShards) + int64(c.Shard) // global script number
-		if g < int64(len(catalogue)) {
-			x.consumers = catalogue[g].consumers
-			sc = parseScript("s", catalogue[g].script)
-			x.scriptID = fmt.Sprintf("catalogue#%d[%s]", g, catalogue[g].script)
+		if g < int64(len(catalogue))*catalogueReps(c) {
+			ci := g % int64(len(catalogue))
+			x.consumers = catalogue[ci].consumers
+			sc = parseScript("s", catalogue[ci].script)
+			x.scriptID = fmt.Sprintf("catalogue#%d[%s]", ci, catalogue[ci].script)
 			x.maxDepth = c.N(2, 3)
 			x.stride = []int{1, 1, 2}
 			x.lenDepth = []int{0, 4, 3}
